@@ -216,4 +216,29 @@ func runC04(r *vf.Runner) {
 		}
 		r.Case(c, func(t *vf.T) { runC04case(t, pool, c) })
 	}
+	// Combiner contention: many reduce tasks with many keys per partition share one machine, so
+	// that with machine combiners several tasks of an operator compete for the per-partition
+	// combiner of their machine while their own small frames fill up.
+	nh := 6
+	if !r.Quick() {
+		nh = 60
+	}
+	for i := 0; i < nh; i++ {
+		keys := rnd.Pick(40, 500, 500, 3000)
+		src := PNode{Op: "readerfunc", Shards: rnd.Pick(4, 8, 16), Rows: rnd.Pick(1000, 4000, 4000), Out: []string{rnd.PickS("int", "string", "int"), "int64"}, Salt: rnd.Uint64(), Mod: keys, Chunks: []int{rnd.Pick(7, 128, 1000)}}
+		c := c04case{Spec: Spec{Nodes: []PNode{src, {Op: "reduce", In: []int{0}, Fold: rnd.PickS("sum", "sum", "min", "xor")}}}}
+		if i%3 == 2 {
+			c.Spec.Nodes = append(c.Spec.Nodes, PNode{Op: "reshard", In: []int{1}, Shards: 3}, PNode{Op: "reduce", In: []int{2}, Fold: "sum"})
+		}
+		for _, sc := range []sessConf{localP4,
+			{Kind: "bigmachine", P: 8, MachProcs: 4, MaxLoad: 0.95, Combiners: true},
+			{Kind: "bigmachine", P: 4, MachProcs: 2, MaxLoad: 0.95, Combiners: true},
+			{Kind: "bigmachine", P: 8, MachProcs: 4, MaxLoad: 0.95}} {
+			c.Confs = append(c.Confs, defaultExec(sc))
+		}
+		r.Case(c, func(t *vf.T) {
+			runC04case(t, pool, c)
+			t.Count("combiner_contention_programs", 1)
+		})
+	}
 }
